@@ -43,7 +43,11 @@ def ref(kind, key, v=0):
 
 def ok(key, v=0):
     _log("body", key)
-    K.S.point(label="task.ok")
+    _inside(+1)
+    try:
+        K.S.point(label="task.ok")
+    finally:
+        _inside(-1)
     return (key, v * v + 1)
 
 
